@@ -81,6 +81,13 @@ def generate(seed: int, tier: str, index: int) -> dict:
             script.append({"op": "exercise"})
         spec["actors"] = [{"id": "storage", "kind": "storage", "role": "media", "prng": rng.getrandbits(32),
                            "script": script}]
+    elif (index // 5) % 3 == 1:
+        # legitimate management sequences (the C17 workload) under this property's oracle: an authorised, well-formed
+        # request never answers 5xx either
+        from . import c17
+        spec["family"] = "manage"
+        spec["world"] = {"variant": "full"}
+        spec["actors"] = c17.generate(seed, tier, index * 4)["actors"]
     elif (index // 5) % 3 == 2:
         # second stage: legitimate management operations served concurrently (pre-emption inside requests)
         from . import c17
@@ -656,6 +663,10 @@ def execute(spec: dict) -> dict:
                 b = Burster(sim, a)
                 b.observers = [RaceOracle(sim)]
                 actors.append(b)
+                continue
+            if a["kind"] == "manager":
+                from ..actors.manager import Manager
+                actors.append(Manager(sim, a))
                 continue
             cls = {"hostile": Hostile, "storage": Storage, "inject": Injector, "inject_time": TimeInjector}[a["kind"]]
             actors.append(cls(sim, a))
